@@ -90,7 +90,7 @@ func genSighash(e *emitter, tier string, seed uint64, legacy bool) {
 	}
 	shapes := 40
 	if tier != "quick" {
-		shapes = 1200
+		shapes = 150
 	}
 	var flags []int
 	for f := 0; f < 256; f++ {
